@@ -254,18 +254,70 @@ class IpRig(Rig):
                                              "AccessoryPort": 1, "Connection": "IP"})
         self.pairing._ensure_connected = self._noop
         self.pairing.dispatcher_connect(lambda ev: self.log.append(dict(ev)))
-        self.reply = None
-        self.requests = []
+        self.reply = None          # scripted mode: one fixed reply whatever is asked
+        self.table = None          # reactive mode: {(aid, iid): outcome}, answered per request actually sent
+        self.sent = []             # reactive mode: ids of each request sent, in order
+        self.replied = []          # reactive mode: entries of each 207 reply given, in order
 
         async def fake_get(target):
-            self.requests.append(("GET", target))
-            return self.reply
+            if self.table is None:
+                return self.reply
+            # reactive accessory: answer exactly the ids of THIS request
+            ids = []
+            q = target.split("?", 1)[1] if "?" in target else ""
+            for part in q.split("&"):
+                if part.startswith("id="):
+                    ids = [tuple(int(x) for x in t.split(".")) for t in part[3:].split(",") if t]
+            self.sent.append(ids)
+            entries, bad = [], False
+            for k in ids:
+                st, val = self.table.get(k, (-70409, None))
+                e = ["E", k[0], k[1], st, val]
+                bad = bad or st not in (None, 0)
+                entries.append(e)
+            self.replied.append(entries)
+            return Resp(207 if bad else 200, json.dumps({"characteristics": [entry_json(e) for e in entries]}).encode())
 
         async def fake_put(target, body, content_type=None):
-            self.requests.append(("PUT", target, bytes(body)))
-            return self.reply
+            if self.table is None:
+                return self.reply
+            items = json.loads(bytes(body))["characteristics"]
+            ids = [(it["aid"], it["iid"]) for it in items]
+            self.sent.append(ids)
+            entries = [["E", a, i, self.table.get((a, i), -70409), None] for a, i in ids]
+            if all(e[3] == 0 for e in entries):
+                return Resp(204, b"")                      # everything in this request accepted
+            self.replied.append(entries)
+            return Resp(207, json.dumps({"characteristics": [entry_json(e) for e in entries]}).encode())
         self.pairing.connection.get = fake_get
         self.pairing.connection.put = fake_put
+
+    async def get_reactive(self, case):
+        self.set_perms({})
+        self.table = {tuple(map(int, k.split("."))): tuple(v) for k, v in case["table"].items()}
+        self.sent, self.replied = [], []
+        try:
+            res = await self.pairing.get_characteristics([tuple(k) for k in case["req"]])
+            res = canon_read_result(res)
+        except Exception as e:  # noqa
+            res = exc_class(e)
+        finally:
+            self.table = None
+        return res
+
+    async def put_reactive(self, case):
+        self.set_perms({tuple(map(int, k.split("."))): p for k, p in case["perms"].items()})
+        self.table = {tuple(map(int, k.split("."))): v for k, v in case["table"].items()}
+        self.sent, self.replied = [], []
+        self.log.clear()
+        try:
+            res = await self.pairing.put_characteristics([tuple(q) for q in case["reqs"]])
+            res = (canon_write_result(res), merge_log(self.log))
+        except Exception as e:  # noqa
+            res = exc_class(e)
+        finally:
+            self.table = None
+        return res
 
     async def get(self, case):
         self.set_perms({})
@@ -330,11 +382,51 @@ class CoapRig(Rig):
                 return list(rig.script)
         self.calls = []
         self.script = []
-        self.pairing.connection.enc_ctx = Enc()
+        self.scripted_enc = Enc()
+        self.pairing.connection.enc_ctx = self.scripted_enc
+        # reactive accessory: a real EncryptionContext whose transport (post_bytes) parses the request
+        # PDUs actually sent and answers each one from a per-iid outcome table
+        from aiohomekit.controller.coap.connection import EncryptionContext
+        self.reactive_enc = EncryptionContext(None, None, None, "coap://x/", object())
+        self.table = {}
+        self.sent = []
+
+        async def post_bytes(payload, timeout=16.0):
+            out, off, req = b"", 0, []
+            while off < len(payload):
+                _ctl, opcode, tid, iid, ln = struct.unpack("<BBBHH", payload[off:off + 7])
+                off += 7 + ln
+                req.append((opcode, iid))
+                o = rig.table.get(iid, ["S", 4])
+                if o[0] == "S":
+                    out += struct.pack("<BBBH", 0x02, tid, o[1], 0)
+                else:
+                    body = bytes([1, 1, o[1] & 0xFF]) if opcode == 3 else b""
+                    out += struct.pack("<BBBH", 0x02, tid, 0, len(body)) + body
+            rig.sent.append(req)
+            return out
+        self.reactive_enc.post_bytes = post_bytes
 
     def _script(self, results, body):
         from aiohomekit.controller.coap.pdu import PDUStatus
         return [PDUStatus(r[1]) if r[0] == "S" else body(r[1]) for r in results]
+
+    async def reactive(self, case, write):
+        self.set_perms({tuple(map(int, k.split("."))): p for k, p in case.get("perms", {}).items()})
+        self.table = {int(i): o for i, o in case["table"].items()}
+        self.sent = []
+        self.log.clear()
+        self.pairing.connection.enc_ctx = self.reactive_enc
+        try:
+            if write:
+                res = await self.pairing.put_characteristics([tuple(q) for q in case["reqs"]])
+                return canon_write_result(res, "pdu"), merge_log(self.log)
+            res = await self.pairing.get_characteristics([tuple(k) for k in case["ids"]])
+            return canon_read_result(res, "pdu")
+        except Exception as e:  # noqa
+            return exc_class(e)
+        finally:
+            self.pairing.connection.enc_ctx = self.scripted_enc
 
     async def get(self, case):
         self.set_perms({})
@@ -822,6 +914,92 @@ def gen_ble(tier, r):
     return cases
 
 
+# ---------------------------------------------------------------- reactive-accessory streams
+# The accessory answers every request actually sent, for exactly the ids in THAT request, from a
+# per-id outcome table (204 / 200 when everything in the request succeeded, 207 otherwise), so the
+# verdict does not depend on how the controller batches its requests.
+R_LAYOUTS = {
+    1: [[(1, 10)], [(2, 10)]],
+    2: [[(1, 10), (1, 11)], [(1, 10), (2, 10)], [(2, 10), (1, 10)]],
+    3: [[(1, 10), (1, 11), (1, 12)], [(1, 10), (2, 10), (1, 11)], [(1, 10), (1, 11), (2, 10)], [(2, 14), (1, 10), (2, 10)]],
+    4: [[(1, 10), (1, 11), (1, 12), (1, 13)], [(1, 10), (2, 10), (1, 11), (2, 14)], [(1, 10), (1, 11), (2, 10), (2, 14)],
+        [(2, 10), (1, 10), (1, 11), (2, 14)]],
+}
+A_MID = A_RED + [-70401, 70412, 1, -70413]
+
+
+def gen_reactive(tier, r):
+    nmax = 3 if tier == "quick" else 4
+    puts, gets, cputs, creads = [], [], [], []
+    ctr = 0
+    for n in range(1, nmax + 1):
+        alpha = A_FULL if n <= 2 else (A_MID if (n == 3 and tier != "quick") else A_RED)
+        pm = list(itertools.product([RW, WO, RWT], repeat=n))
+        for layout in R_LAYOUTS[n]:
+            for vec in itertools.product(alpha, repeat=n):
+                ctr += 1
+                reqs = [(a, i, 20 + j) for j, (a, i) in enumerate(layout)]
+                perms = {ks(k): p for k, p in zip(layout, pm[ctr % len(pm)])}
+                puts.append(dict(kind="ipput-r", src="vec", reqs=reqs, perms=perms,
+                                 table={ks(k): s for k, s in zip(layout, vec)}))
+            for vec in itertools.product([None] + alpha, repeat=n):
+                ctr += 1
+                gets.append(dict(kind="ipget-r", src="vec", req=[list(k) for k in layout],
+                                 table={ks(k): [s, 40 + (ctr + j) % 9 if s in (None, 0) else None]
+                                        for j, (k, s) in enumerate(zip(layout, vec))}))
+            calpha = [["B", 0]] + [["S", m] for m in range(1, 7)]
+            for vec in itertools.product(calpha if n <= 3 else calpha[:3], repeat=n):
+                ctr += 1
+                table = {}
+                for j, ((a, i), o) in enumerate(zip(layout, vec)):
+                    table.setdefault(str(i), [o[0], (60 + ctr + j) % 250 + 1] if o[0] == "B" else o)
+                reqs = [(a, i, 70 + j) for j, (a, i) in enumerate(layout)]
+                perms = {ks(k): p for k, p in zip(layout, pm[ctr % len(pm)])}
+                cputs.append(dict(kind="coapput-r", src="vec", reqs=reqs, perms=perms, table=table))
+                creads.append(dict(kind="coapread-r", src="vec", ids=[list(k) for k in layout], table=table))
+    # random: longer requests, repeated ids, more permission kinds
+    for _ in range(1500 if tier == "quick" else 20000):
+        n = r.choice([2, 3, 4, 4, 5, 6])
+        ids = [r.choice(POOL) for _ in range(n)] if r.random() < 0.3 else r.sample(POOL, min(n, len(POOL)))
+        table = {ks(k): (0 if r.random() < 0.5 else r.choice(A_FULL)) for k in set(ids)}
+        puts.append(dict(kind="ipput-r", src="random", reqs=[(a, i, r.randrange(1, 200)) for a, i in ids],
+                         perms={ks(k): r.choice([RW, RW, WO, RWT, RO, WT]) for k in set(ids)}, table=table))
+        gets.append(dict(kind="ipget-r", src="random", req=[list(k) for k in ids],
+                         table={k: [s if r.random() < 0.7 else None, 5] if s == 0 else [s, None] for k, s in table.items()}))
+    return puts, gets, cputs, creads
+
+
+def coverage_verdict(stream, want, sent, as_set=False):
+    """Every requested id is sent, exactly once, and nothing else is."""
+    flat = [k for req in sent for k in req]
+    w = sorted(set(want)) if as_set else sorted(want)
+    if sorted(flat) != w:
+        return ("request-coverage", f"{stream}: requested {w}, but the requests actually sent carried {sent}")
+    return None
+
+
+def oracle_ipput_reactive(case, res, sent):
+    reqs = [tuple(q) for q in case["reqs"]]
+    perms = case["perms"]
+    sts = {(a, i): [case["table"][ks((a, i))]] for a, i, _ in reqs}
+    v = oracle_write("ipput-reactive", reqs, lambda k: "pr" in perms[ks(k)].split(","), sts, res, "reactive", write_descr_token)
+    return v or coverage_verdict("ipput-reactive", [(a, i) for a, i, _ in reqs], sent)
+
+
+def oracle_ipget_reactive(case, res, sent):
+    ids = [tuple(k) for k in case["req"]]
+    ref = dict(g=None, req=case["req"], entries=[["E", k[0], k[1]] + list(case["table"][ks(k)]) for k in sorted(set(ids))])
+    v = oracle_read(ref, res, "ipget-reactive")
+    return v or coverage_verdict("ipget-reactive", ids, sent, as_set=True)
+
+
+def coap_positional(case):
+    """the per-iid table laid out positionally for the (unchanged) model and the CoAP oracles"""
+    if "reqs" in case:
+        return dict(reqs=case["reqs"], perms=case["perms"], results=[case["table"][str(i)] for _, i, _ in case["reqs"]])
+    return dict(ids=case["ids"], results=[case["table"][str(k[1])] for k in case["ids"]])
+
+
 # ---------------------------------------------------------------- run
 class Reporter:
     def __init__(self):
@@ -867,6 +1045,8 @@ def shrink_ipput(case, rig, loop):
 
 def run(ctx):
     tier, seed = ctx["tier"], ctx["seed"]
+    import logging
+    logging.getLogger("aiohomekit").setLevel(logging.CRITICAL)     # rejected PDUs are logged as warnings
     drv = Driver(ctx["driver"])
     cov = Coverage("a case counts when it is distinct and exercises the mapping: read = at least one requested id or one "
                    "reply entry; write = at least one written characteristic and (a 207 with >= 1 entry, or a 204); "
@@ -907,8 +1087,8 @@ def run(ctx):
     # ---- reads (fcl direct + IpPairing.get_characteristics)
     from aiohomekit.controller.ip.pairing import format_characteristic_list
     rcases = gen_read(tier, rng(seed, "c13read"))
-    if replay and replay.get("stream") in ("fcl", "ipget"):
-        rcases = [replay["case"]]
+    if replay:
+        rcases = [replay["case"]] if replay.get("stream") in ("fcl", "ipget") else []
     m_fcl = [canon_model_read(a) for a in drv.batch([line_read("fcl", c) for c in rcases])]
     m_get = [canon_model_read(a) for a in drv.batch([line_read("ipget", c) if c["req"] is not None else "tsc 0" for c in rcases])]
     for idx, (c, mf, mg) in enumerate(zip(rcases, m_fcl, m_get)):
@@ -931,8 +1111,8 @@ def run(ctx):
 
     # ---- IP writes
     wcases = gen_ipput(tier, rng(seed, "c13put"))
-    if replay and replay.get("stream") == "ipput":
-        wcases = [replay["case"]]
+    if replay:
+        wcases = [replay["case"]] if replay.get("stream") == "ipput" else []
     m_put = [canon_model_write(a) for a in drv.batch([line_ipput(c) for c in wcases])]
     first_drop = None
     for idx, (c, m) in enumerate(zip(wcases, m_put)):
@@ -959,12 +1139,60 @@ def run(ctx):
                 v["payload"]["shrunk_model_unrepaired"] = canon_model_write(drv.batch([line_ipput(small, "u")])[0])
                 break
 
+    # ---- reactive accessory: IP writes / reads, CoAP writes / reads
+    rputs, rgets, rcputs, rcreads = gen_reactive(tier, rng(seed, "c13reactive"))
+    if replay:
+        st = replay.get("stream")
+        rputs = [replay["case"]] if st == "ipput-reactive" else []
+        rgets = [replay["case"]] if st == "ipget-reactive" else []
+        rcputs = [replay["case"]] if st == "coapput-reactive" else []
+        rcreads = [replay["case"]] if st == "coapread-reactive" else []
+    pend = []
+    for c in rputs:
+        res = loop.run_until_complete(ip.put_reactive(c))
+        sent, replied = [list(x) for x in ip.sent], [e for rr in ip.replied for e in rr]
+        derived = dict(reqs=c["reqs"], perms=c["perms"], code="207" if ip.replied else "204", entries=replied)
+        pend.append((c, res, oracle_ipput_reactive(c, res, sent), line_ipput(derived), sent))
+    for idx, ((c, res, orc, _, sent), m) in enumerate(zip(pend, drv.batch([p[3] for p in pend]))):
+        judge("ipput-reactive", dict(c, requests_sent=[[list(k) for k in q] for q in sent]), fmt_write(res), canon_model_write(m), orc)
+        vals = list(c["table"].values())
+        cov.case("rw" + json.dumps(c, sort_keys=True), bool(c["reqs"]),
+                 sample=dict(stream="ipput-reactive", case=c, requests_sent=sent, impl=fmt_write(res)) if idx % 2503 == 5 else None,
+                 rput_src=c["src"], rput_requests=len(sent), rput_aids=len({a for a, _, _ in c["reqs"]}),
+                 rput_mix="all-accepted" if all(v == 0 for v in vals) else ("all-rejected" if all(v != 0 for v in vals) else "mixed"),
+                 rput_rejecting_aids=len({int(k.split(".")[0]) for k, v in c["table"].items() if v != 0}))
+    pend = []
+    for c in rgets:
+        res = loop.run_until_complete(ip.get_reactive(c))
+        sent, replied = [list(x) for x in ip.sent], [e for rr in ip.replied for e in rr]
+        pend.append((c, res, oracle_ipget_reactive(c, res, sent), line_read("ipget", dict(g=None, req=c["req"], entries=replied)), sent))
+    for idx, ((c, res, orc, _, sent), m) in enumerate(zip(pend, drv.batch([p[3] for p in pend]))):
+        judge("ipget-reactive", dict(c, requests_sent=[[list(k) for k in q] for q in sent]), fmt_read(res), canon_model_read(m), orc)
+        cov.case("rg" + json.dumps(c, sort_keys=True), bool(c["req"]),
+                 sample=dict(stream="ipget-reactive", case=c, requests_sent=sent, impl=fmt_read(res)) if idx % 2503 == 9 else None,
+                 rget_requests=len(sent), rget_aids=len({k[0] for k in c["req"]}))
+    for cases, write, name, oracle, line, canon, fmt in (
+            (rcputs, True, "coapput-reactive", oracle_coapput, line_coapput, canon_model_write, fmt_write),
+            (rcreads, False, "coapread-reactive", oracle_coapread, line_coapread, canon_model_read, fmt_read)):
+        models = drv.batch([line(coap_positional(c)) for c in cases])
+        for idx, (c, m) in enumerate(zip(cases, models)):
+            res = loop.run_until_complete(coap.reactive(c, write))
+            sent = [list(x) for x in coap.sent]
+            orc = oracle(coap_positional(c), res)
+            if orc is None:
+                want = [i for _, i, _ in c["reqs"]] if write else [k[1] for k in c["ids"]]
+                if sorted(i for q in sent for _, i in q) != sorted(want) or any(op != (2 if write else 3) for q in sent for op, _ in q):
+                    orc = ("request-coverage", f"{name}: requested iids {want}, PDUs actually sent (opcode, iid) {sent}")
+            judge(name, dict(c, pdus_sent=sent), fmt(res), canon(m), orc)
+            cov.case(name + json.dumps(c, sort_keys=True), True,
+                     sample=dict(stream=name, case=c, pdus_sent=sent, impl=fmt(res)) if idx % 1201 == 13 else None,
+                     **{name.replace("-", "_") + "_requests": len(sent)})
+
     # ---- CoAP
     creads, cputs = gen_coap(tier, rng(seed, "c13coap"))
-    if replay and replay.get("stream") == "coapread":
-        creads, cputs = [replay["case"]], []
-    if replay and replay.get("stream") == "coapput":
-        creads, cputs = [], [replay["case"]]
+    if replay:
+        creads = [replay["case"]] if replay.get("stream") == "coapread" else []
+        cputs = [replay["case"]] if replay.get("stream") == "coapput" else []
     for idx, (c, m) in enumerate(zip(creads, [canon_model_read(a) for a in drv.batch([line_coapread(x) for x in creads])])):
         res = loop.run_until_complete(coap.get(c))
         judge("coapread", c, fmt_read(res), m, oracle_coapread(c, res))
@@ -981,11 +1209,26 @@ def run(ctx):
 
     # ---- BLE
     bcases = gen_ble(tier, rng(seed, "c13ble"))
-    if replay and replay.get("stream") == "bleput":
-        bcases = [replay["case"]]
+    if replay:
+        bcases = [replay["case"]] if replay.get("stream") == "bleput" else []
     for idx, (c, m) in enumerate(zip(bcases, [canon_model_ble(a) for a in drv.batch([line_bleput(x) for x in bcases])])):
         res = loop.run_until_complete(ble.put(c))
-        judge("bleput", c, res, m, oracle_bleput(c, res))
+        orc = oracle_bleput(c, res)
+        if orc is None:
+            want_calls = []
+            for (_a, i, _v, s1, s2) in c["items"]:
+                pl = c["perms"][str(i)].split(",")
+                if "tw" in pl:
+                    want_calls += [(4, i)] if s1 else [(4, i), (5, i)]
+                    if s1 or s2:
+                        break
+                elif "pw" in pl:
+                    want_calls.append((2, i))
+                    if s1:
+                        break
+            if ble.calls != want_calls:
+                orc = ("request-sequence", f"bleput: requests sent (opcode, iid) {ble.calls}, want {want_calls}")
+        judge("bleput", dict(c, requests_sent=[list(x) for x in ble.calls]), res, m, orc)
         cov.case("b" + json.dumps(c, sort_keys=True), bool(c["items"]),
                  sample=dict(stream="bleput", case=c, impl=res) if idx % 1501 == 3 else None,
                  ble_src=c["src"], ble_items=len(c["items"]), ble_result=res.partition(" ; ")[2].split(" ")[0])
